@@ -80,15 +80,15 @@ PROPS = {
         level_text='For each seeded (LP, configuration) the uninterrupted solve is recorded (N iterations) and then EVERY stop point k=0..N '
                    '(all when N+1 <= 24 quick / 150 thorough, else a stratified sample incl. 0,1,N-1,N) is enumerated twice: iteration limit k, '
                    'and the interrupt flag raised when the solver\'s own per-iteration log reports iteration k; plus time limit zero/tiny with '
-                   'both clocks and twelve objective limits (OBJLIMIT_UPPER and OBJLIMIT_LOWER, each on both sides of the optimum at three distances, for the sense of the instance). Each stop is judged for honest status, iteration '
+                   'both clocks and twelve objective limits (OBJLIMIT_UPPER and OBJLIMIT_LOWER, each on both sides of the optimum at three distances, for the sense of the instance). Exact (rational) solves of the certified instances are stopped by iteration limits 0..3, refinement limits 0/1 (with stalling limit) and time limit 0: a definite status must be the certified one with the exact optimal value, and the same object must reach it after the limits are lifted. Each stop is judged for honest status, iteration '
                    'count <= limit, valid basis (exact regularity) and resumption to the uninterrupted status and value.',
         level_note='stop/resume equivalence only on instances whose class is certified and tolerance-robust; time-limit stops use real clocks '
-                   '(limit 0 / 1e-9), the deterministic virtual-clock hook of the design was not built; exact-solve limits are covered in C03/C16 notes',
+                   '(limit 0 / 1e-9), the deterministic virtual-clock hook of the design was not built; exact solves use the default exact configuration only',
         technique='fault enumeration over stop points of real executions: iteration limit and log-driven interrupt injection, basis/status/resume oracles under ASan+UBSan',
         stages=lambda t: two_flavour('h_solve', 60, 240, 400, 1600)(t) + [memcheck_stage('h_solve', 16, 96)(t)],
         minima=lambda t: {'memcheck.cases_completed': 14, 'c16.stop_points': 2000, 'c16.iterlimit.stopped_inside_solve': 300, 'c16.interrupt.stopped_inside_solve': 200,
                           'c16.iterlimit.resumed': 500, 'c16.interrupt.resumed': 500, 'c16.basis_after_stop_checked': 500,
-                          'c16.objlimit.sense.max.upper': 100, 'c16.objlimit.sense.max.lower': 100, 'c16.objlimit.sense.min.upper': 100, 'c16.objlimit.sense.min.lower': 100},
+                          'c16.exact.stops': 400, 'c16.exact.resumed': 400, 'c16.objlimit.sense.max.upper': 100, 'c16.objlimit.sense.max.lower': 100, 'c16.objlimit.sense.min.upper': 100, 'c16.objlimit.sense.min.lower': 100},
         eval_counter='c16.stop_points', distinct_set='stoppoints',
         rule='case -> (LP family, seeded LP, algorithm=(k/6)%2, representation=1+(k/12)%2, simplifier=(k/24)%2, other parameters random); '
              'evaluations = stop points executed; distinct = hash(mode, k, LP signature) of stops on instances with certified class',
